@@ -12,7 +12,8 @@
  * self-consistency booleans of a returned object (dimensions, readable
  * cells, ascending frequencies, re-save + re-load + same content), what is
  * left after a failure, and the allocation / leak verdict after freeing.
- * A per-input alarm turns a hang into an observation.
+ * A per-input CPU-time watchdog (ITIMER_PROF) turns a hang into an
+ * observation; wall-clock time is never judged.
  *
  * usage:
  *   drv_loadfuzz fuzz SEED FROM TO       index -> (kind, seed file, mutation)
